@@ -403,6 +403,8 @@ def check(ctx, rep):
             if m is None:
                 continue
             n_w += 1
+            _fv = next((t_.id for a_ in ast.walk(m.node) if isinstance(a_, ast.Assign) and isinstance(a_.value, ast.Call) and dotted(a_.value.func) == "os.fork"
+                        for t_ in a_.targets if isinstance(t_, ast.Name)), "pid")
 
             def rp(call, target):
                 # anything the worker calls on the server object can fail (peek on a reset connection, handshake, handler, ...)
@@ -415,9 +417,9 @@ def check(ctx, rep):
             for p in w.run(m, S):
                 role = None
                 for e in p.events:
-                    if e.kind == "test" and norm(e.node) in ("pid", "pid != 0", "pid > 0"):
+                    if e.kind == "test" and norm(e.node) in (_fv, f"{_fv} != 0", f"{_fv} > 0"):
                         role = "parent" if e.extra else "child"
-                    if e.kind == "test" and norm(e.node) in ("pid == 0", "not pid"):
+                    if e.kind == "test" and norm(e.node) in (f"{_fv} == 0", f"not {_fv}"):
                         role = "child" if e.extra else "parent"
                 calls = [e for e in p.calls()]
                 names = [norm(e.node.func) for e in calls] + [e.name for e in calls if e.target.kind == "ext"]
